@@ -16,6 +16,7 @@ structure GSt where
   deriving Inhabited
 
 structure DSt where
+  ksf : Bool := false   -- reply contexts: the send callback refuses
   g : GSt := {}
   m : St := {}
   s : Refs.SSt := {}
@@ -506,9 +507,12 @@ def stepK (d : DSt) (w : List String) : DSt × String :=
     | some o =>
       if !(m.obj o).alive ∨ (m.obj o).ext = 0 then (d, "bad-op") else
       -- a metatype release answers a pending request while the send target is set; any but the last clears the target
-      let m1 := setFlags m o (isArmed m o && !hasSend m o) (hasSend m o && (m.obj o).count ≤ 1)
+      -- (a refused send leaves the request pending)
+      let m1 := setFlags m o (isArmed m o && (!hasSend m o || d.ksf)) (hasSend m o && (m.obj o).count ≤ 1)
       finishK d (m1.extUnref o) true (Refs.extUnref d.s o)
     | none => (d, "bad-op")
+  | ["k", "sendfail", v] =>
+    if v == "0" ∨ v == "1" then finishK { d with ksf := v == "1" } m true [{ ok := true, st := d.s }] else (d, "bad-op")
   | ["k", "release", hs] =>
     match idx hs 3 with
     | some h => if handleEmpty m h then (d, "bad-op") else finishK d (m.drop h) true (Refs.drop d.s h)
